@@ -12,7 +12,7 @@ ID = "C03"
 CHECK_MODULE = "Version.CompareCheck"
 PROPS_FILE = "Props/C03.v"
 ANCHORS = [(vc.SRC, vc.ANCHOR_NAMES_COMPARE + ["re_valid_version", "_set_full_version"])]
-BUDGET = {"quick": 4000, "thorough": 60000}
+BUDGET = {"quick": 3000, "thorough": 45000}
 SHARD = 400
 SHARD_IMPORTS = "From Verif Require Import Version.Parse Version.Compare."
 RULE = ("pairs (70%) and triples (20%) of version strings: families that dpkg orders as equal under different "
